@@ -4,6 +4,7 @@ package web
 
 import (
 	"crypto/tls"
+	"io"
 	"net/http"
 
 	"github.com/bolkedebruin/rdpgw/cmd/rdpgw/identity"
@@ -213,4 +214,33 @@ func VP_C07_session_identities() {
 	vpAssert(idA.UserName() == "alice", "first-requests-identity-keeps-its-user-name")
 	raA, _ := idA.GetAttribute(identity.AttrRemoteAddr).(string)
 	vpAssert(raA == "198.51.100.7:5000", "first-requests-identity-keeps-its-peer-address")
+}
+
+
+//vp:property C20 C10
+//vp:bounds a POST whose body has 1 KiB, 64 KiB + 1 or 128 KiB (what the KDC proxy accepts) passes the router's middleware (EnrichContext, installed in front of every route) and is then read in full by its handler, 32 KiB at a time
+//vp:assume new session
+//vp:reach read
+func VP_C20_body_through_the_middleware() {
+	vpResetWeb()
+	sessionStore = vpNewStore()
+	size := []int{1024, 64*1024 + 1, 128 * 1024}[vpIntRange("body-size", 0, 2)]
+	got, failed := 0, false
+	next := http.HandlerFunc(func(w http.ResponseWriter, r *http.Request) {
+		buf := make([]byte, 32*1024)
+		for {
+			n, err := r.Body.Read(buf)
+			got += n
+			if err != nil {
+				failed = err != io.EOF
+				return
+			}
+		}
+	})
+	r := vpRequest("POST", http.Header{}, nil)
+	r.RemoteAddr = "192.0.2.9:4242"
+	r.Body = &vpSizedBody{left: size}
+	EnrichContext(next).ServeHTTP(vpNewRW(), r)
+	vpReach("read")
+	vpAssert(!failed && got == size, "the-handler-behind-the-middleware-reads-the-whole-body")
 }
